@@ -572,7 +572,7 @@ fn hostile_link_files() -> Vec<(String, String)> {
 fn hostile_layouts() -> Vec<(String, LayoutMetadata)> {
     let a = keys::get("ed1");
     let mut v = vec![];
-    for name in ["s", "", "[", "*", "s*", "a/b", "../s", "s.", ".", "s\u{0}", "é", "?"] {
+    for name in ["s", "", "[", "*", "s*", "a/b", "../s", "s.", ".", "s\u{0}", "é", "?", "[ab]", "[a-z]*", "s.x", "ééééééééé", "?????????????"] {
         for thr in [0u32, 1, u32::MAX] {
             let st = world::step(name, thr, &[a])
                 .add_expected_material(ArtifactRule::Match { pattern: "*".into(), in_src: Some("./".into()), with: Artifact::Products, in_dst: None, from: name.into() })
@@ -615,12 +615,19 @@ fn sweep_adversarial_verify(cx: &mut Ctx, dir: &Path) {
                     let _ = std::fs::remove_dir_all(&linkdir);
                     std::fs::create_dir_all(&linkdir).unwrap();
                     // the hostile file under the authorised key's prefix and under arbitrary prefixes
-                    for prefix in [a.prefix(), "aaaaaaaa".to_string(), "éééé".to_string()] {
+                    // eight *characters* after the step name match the glob `????????`; several of
+                    // these names have a multi-byte character across byte 8 of that part
+                    for prefix in [a.prefix(), "aaaaaaaa".to_string(), "éééé".to_string(), "aaaaaaaé".to_string(), "éééééééé".to_string(), "€€€€€€€€".to_string(), "aaaaaa\u{10000}a".to_string(), "aaa".to_string(), "aaaaaaaaa".to_string()] {
                         let safe = sn.replace('/', "_").replace('\0', "_");
                         let _ = std::fs::write(linkdir.join(format!("{safe}.{prefix}.link")), ct);
                         let _ = std::fs::write(linkdir.join(format!("s.{prefix}.link")), ct);
                     }
                     let _ = std::fs::create_dir_all(linkdir.join(format!("s.{}", a.prefix())));
+                    // names that are shorter than the step name, or only the step name
+                    let _ = std::fs::write(linkdir.join("s.link"), ct);
+                    let _ = std::fs::write(linkdir.join(".link"), ct);
+                    let _ = std::fs::write(linkdir.join("a.link"), ct);
+                    let _ = std::fs::write(linkdir.join("b"), ct);
                     see(world::verify(bl, world::owner_map(&[owner]), &linkdir));
                     // wrong kind of block as layout, and no keys at all
                     if let Ok(mb) = serde_json::from_str::<Metablock>(ct) {
